@@ -6,12 +6,17 @@ package main
 
 import (
 	"bytes"
+	"encoding/binary"
 	"encoding/json"
+	"errors"
 	"fmt"
 	"math/rand"
 	"net"
+	"os"
+	"path/filepath"
 	"regexp"
 	"runtime"
+	"sort"
 	"strconv"
 	"strings"
 	"sync"
@@ -19,6 +24,8 @@ import (
 
 	"bngverif/hx"
 
+	"github.com/cilium/ebpf"
+	"github.com/cilium/ebpf/rlimit"
 	"github.com/codelaboratoryltd/bng/pkg/nat"
 	"go.uber.org/zap"
 )
@@ -89,15 +96,52 @@ func randSeq(r *rand.Rand, n int) []string {
 	}
 	subs := 2 + r.Intn(5)
 	ips := 1 + r.Intn(3)
-	seq := []string{newOp(c, modes[r.Intn(len(modes))])}
+	kern := r.Intn(2) == 0
+	first := newOp(c, modes[r.Intn(len(modes))])
+	if kern {
+		first += " kern"
+	}
+	seq := []string{first}
 	k := func() string { return fmt.Sprintf("k%d", 1+r.Intn(subs)) }
+	failing, backlog := false, false // the log writer (wfail), records it may have refused
 	for i := 0; i < ips; i++ {
 		if r.Intn(4) > 0 {
 			seq = append(seq, fmt.Sprintf("addip p%d", 1+i))
 		}
 	}
 	for j := 0; j < n; j++ {
-		switch x := r.Intn(100); {
+		switch x := r.Intn(114); {
+		case x >= 100 && x < 105:
+			// the caller writes over what it was handed / what it passed in
+			switch r.Intn(4) {
+			case 0:
+				seq = append(seq, "poke arg "+k())
+			case 1:
+				seq = append(seq, fmt.Sprintf("poke addip p%d", 1+r.Intn(ips)))
+			case 2:
+				seq = append(seq, "poke pool")
+			default:
+				seq = append(seq, "poke ret "+k()+" "+hx.Pick(r, []string{"idx", "idx", "idx0", "pub", "priv", "ports", "sub"}))
+			}
+		case x >= 105 && x < 109:
+			if !kern {
+				seq = append(seq, "get "+k())
+			} else if r.Intn(3) == 0 {
+				seq = append(seq, "kmap")
+			} else {
+				seq = append(seq, "fault "+hx.Pick(r, []string{"on", "on", "off"}))
+			}
+		case x >= 109:
+			switch r.Intn(5) {
+			case 0:
+				seq = append(seq, "wfail off")
+				failing = false
+			case 1, 2:
+				seq = append(seq, "flush")
+			default:
+				seq = append(seq, fmt.Sprintf("wfail %d", r.Intn(4)))
+				failing, backlog = true, true
+			}
 		case x < 34:
 			seq = append(seq, "alloc "+k())
 		case x < 58:
@@ -112,7 +156,12 @@ func randSeq(r *rand.Rand, n int) []string {
 			seq = append(seq, fmt.Sprintf("addip p%d", 1+r.Intn(ips)))
 		case x < 90:
 			// a stretch during which the logger is not flushed after each call, usually with a flush parked
-			// inside its first Write while calls go on (the background flushLoop on a slow log file)
+			// inside its first Write while calls go on (the background flushLoop on a slow log file), or queued at the
+			// write lock and overtaken by an inline flush
+			if failing || backlog {
+				seq = append(seq, "wfail off", "flush")
+				failing, backlog = false, false
+			}
 			seq = append(seq, "buffer")
 			calls := 0
 			some := func(n int) {
@@ -127,7 +176,7 @@ func randSeq(r *rand.Rand, n int) []string {
 			}
 			some(r.Intn(5))
 			for rounds := r.Intn(3); rounds > 0; rounds-- {
-				seq = append(seq, "flushhold")
+				seq = append(seq, hx.Pick(r, []string{"flushhold", "flushhold", "flushpark"}))
 				some(1 + r.Intn(5))
 				if r.Intn(4) == 0 && calls < 26 {
 					seq = append(seq, "hold", "spawn alloc "+k(), "spawn dealloc "+k(), "unhold")
@@ -155,10 +204,148 @@ func randSeq(r *rand.Rand, n int) []string {
 			seq = append(seq, "unhold")
 		}
 	}
+	if failing {
+		seq = append(seq, "wfail off", "flush")
+	}
+	if kern {
+		seq = append(seq, "fault off", "kmap")
+	}
 	for i := 1; i <= subs; i++ {
 		seq = append(seq, fmt.Sprintf("get k%d", i))
 	}
 	return append(seq, "count", "pools")
+}
+
+// aliasSeqs: after a short history the caller scribbles over one thing it was handed or passed in; everything that
+// follows must be as if it had not (the manager keeps and hands out copies).
+func aliasSeqs(emit func([]string)) {
+	pokes := []string{"poke ret k1 idx", "poke ret k1 idx0", "poke ret k2 idx", "poke ret k1 pub", "poke ret k1 priv",
+		"poke ret k1 ports", "poke ret k1 sub", "poke arg k1", "poke arg k2", "poke addip p1", "poke addip p2", "poke pool"}
+	prefixes := [][]string{
+		{"alloc k1", "alloc k2"},
+		{"alloc k1", "alloc k2", "get k1", "get k2"},
+		{"alloc k1", "alloc k2", "alloc k3", "alloc k4", "get k1"},
+		{"alloc k1", "alloc k2", "dealloc k2", "alloc k2"},
+	}
+	for _, mode := range []string{"bulk", "trad"} {
+		for _, pre := range prefixes {
+			for _, pk := range pokes {
+				seq := []string{newOp(cfg{1000, 10000, 12999}, mode) + " kern", "addip p1", "addip p2"}
+				seq = append(seq, pre...)
+				seq = append(seq, pk, "get k1", "get k2", "pools", "alloc k5", "dealloc k1", "pools", "alloc k6", "alloc k1",
+					"addip p1", "addip p2", "kmap", "get k1", "get k5", "get k6", "dealloc k2", "alloc k7", "pools", "count")
+				emit(seq)
+			}
+		}
+	}
+}
+
+// faultSeqs: the kernel map refuses every Put and Delete for a while (`fault on`): every call shape inside the fault,
+// then the retries and the re-use of whatever was (not) freed.
+func faultSeqs(emit func([]string)) {
+	inside := [][]string{
+		{"dealloc k1"}, {"dealloc k2"}, {"dealloc k4"}, {"alloc k1"}, {"alloc k4"}, {"alloc k4", "alloc k5"},
+		{"dealloc k1", "dealloc k1"}, {"dealloc k1", "alloc k1"}, {"dealloc k2", "alloc k4"}, {"alloc k4", "dealloc k4"},
+		{"hold", "spawn dealloc k1", "spawn alloc k4", "unhold"},
+		{"hold", "spawn alloc k4", "spawn alloc k4", "spawn dealloc k2", "unhold"},
+	}
+	after := [][]string{
+		{"alloc k4"}, {"dealloc k1", "alloc k4"}, {"alloc k4", "alloc k5"}, {"dealloc k2", "dealloc k1", "alloc k5", "alloc k4"},
+	}
+	for _, mode := range []string{"bulk", "trad", "off"} {
+		for _, c := range []cfg{{1000, 10000, 12999}, {4, 2000, 2011}} {
+			for _, in := range inside {
+				for _, af := range after {
+					seq := []string{newOp(c, mode) + " kern", "addip p1", "alloc k1", "alloc k2", "alloc k3", "dealloc k3", "kmap", "fault on"}
+					seq = append(seq, in...)
+					seq = append(seq, "kmap", "get k1", "get k2", "get k4", "pools", "fault off")
+					seq = append(seq, af...)
+					seq = append(seq, "kmap", "get k1", "get k2", "get k4", "get k5", "pools", "count")
+					emit(seq)
+				}
+			}
+		}
+	}
+}
+
+// flushRaceWindows: a flush queued at the write lock (the flushLoop's) is overtaken by an inline flush after 1..2 more
+// calls; b calls were buffered before it started.
+func flushRaceWindows(emit func([]string)) {
+	during := []string{"alloc k4", "alloc k5", "dealloc k1", "dealloc k2", "alloc k1"}
+	before := [][]string{{}, {"alloc k1"}, {"alloc k1", "alloc k2"}, {"alloc k1", "alloc k2", "alloc k3"},
+		{"alloc k1", "alloc k2", "dealloc k1", "alloc k3"}}
+	for _, mode := range []string{"bulk", "trad"} {
+		for _, pre := range before {
+			for _, a := range during {
+				for _, b := range append([]string{""}, during...) {
+					seq := []string{newOp(cfg{1000, 10000, 14999}, mode), "addip p1", "buffer"}
+					seq = append(seq, pre...)
+					seq = append(seq, "flushpark", a)
+					if b != "" {
+						seq = append(seq, b)
+					}
+					seq = append(seq, "flushrelease", "get k1", "get k2", "get k4", "alloc k6", "pools")
+					emit(seq)
+				}
+			}
+		}
+	}
+}
+
+// wfailSeqs: the log writer accepts n more records and then fails; calls go on; it recovers; nothing may be lost or
+// out of order.
+func wfailSeqs(emit func([]string)) {
+	calls := [][]string{{"alloc k3"}, {"dealloc k1"}, {"dealloc k1", "alloc k3"}, {"dealloc k1", "alloc k3", "dealloc k2"},
+		{"hold", "spawn dealloc k1", "spawn alloc k3", "unhold"}, {"dealloc k1", "flush", "alloc k3"}}
+	for _, mode := range []string{"bulk", "trad"} {
+		for n := 0; n <= 2; n++ {
+			for _, cs := range calls {
+				for _, rec := range [][]string{{"flush"}, {"alloc k4"}, {"dealloc k2", "alloc k5"}} {
+					seq := []string{newOp(cfg{1000, 10000, 12999}, mode), "addip p1", "alloc k1", "alloc k2", fmt.Sprintf("wfail %d", n)}
+					seq = append(seq, cs...)
+					seq = append(seq, "wfail off")
+					seq = append(seq, rec...)
+					seq = append(seq, "flush", "get k1", "get k2", "get k3", "pools")
+					emit(seq)
+				}
+			}
+		}
+	}
+}
+
+// fileSeq: the logger writes a real file that is rotated about every sixth record; for a while the rotation cannot
+// open the new file (`rotfail on`: at most maxRotCalls calls); `sync` shows what reached the files.
+func fileSeq(r *rand.Rand) []string {
+	mode := hx.Pick(r, []string{"bulkf", "tradf"})
+	seq := []string{newOp(cfg{100, 10000, 10999}, mode), "addip p1"}
+	k := func() string { return fmt.Sprintf("k%d", 1+r.Intn(8)) }
+	call := func() string {
+		if r.Intn(3) > 0 {
+			return "alloc " + k()
+		}
+		return "dealloc " + k()
+	}
+	for round := 1 + r.Intn(4); round > 0; round-- {
+		for i := r.Intn(9); i > 0; i-- {
+			seq = append(seq, call())
+		}
+		if r.Intn(4) == 0 {
+			seq = append(seq, "sync")
+		}
+		seq = append(seq, "rotfail on")
+		for i := 1 + r.Intn(maxRotCalls); i > 0; i-- {
+			seq = append(seq, call())
+		}
+		if r.Intn(5) == 0 {
+			seq = append(seq, "hold", "spawn "+call(), "unhold")
+		}
+		seq = append(seq, "rotfail off")
+		for i := r.Intn(4); i > 0; i-- {
+			seq = append(seq, call())
+		}
+		seq = append(seq, "sync")
+	}
+	return append(seq, "get k1", "get k2", "pools")
 }
 
 // exhaustive enumerates every sequence of alloc/dealloc of up to `subs` subscribers to the given depth, up to
@@ -339,6 +526,17 @@ func (comp) Gen(r *rand.Rand, tier string, emit func([]string)) {
 	windows(emit)
 	flushWindows(emit)
 	fills(r, tier, emit)
+	aliasSeqs(emit)
+	faultSeqs(emit)
+	flushRaceWindows(emit)
+	wfailSeqs(emit)
+	nFile := 150
+	if tier == "thorough" {
+		nFile = 3000
+	}
+	for i := 0; i < nFile; i++ {
+		emit(fileSeq(r))
+	}
 	// truly concurrent callers (no placement): only the final table and the log are observed, judged by the monitor
 	nStress := 40
 	if tier == "thorough" {
@@ -381,16 +579,29 @@ type task struct {
 // stallWriter is the logger's output.  When armed, the next Write records its data and then parks until
 // released: a flush of the NAT log is then "in flight" (its batch taken, one record written) while the
 // harness goes on allocating and releasing -- what the background flushLoop does with a slow log file.
+//
+// `wfail n`: the next n Writes succeed, every later one fails (a full disk) until `wfail off`.
 type stallWriter struct {
 	mu      sync.Mutex
 	buf     bytes.Buffer
 	armed   bool
+	failing bool
+	left    int
 	inWrite chan struct{}
 	resume  chan struct{}
 }
 
+var errDisk = errors.New("write nat.log: no space left on device")
+
 func (w *stallWriter) Write(p []byte) (int, error) {
 	w.mu.Lock()
+	if w.failing {
+		if w.left == 0 {
+			w.mu.Unlock()
+			return 0, errDisk
+		}
+		w.left--
+	}
 	w.buf.Write(p)
 	park := w.armed
 	w.armed = false
@@ -414,19 +625,86 @@ func (w *stallWriter) take() string {
 // the parked flush) when 50 port-block records are buffered
 const maxBufCalls = 40
 
+// file mode (`bulkf` / `tradf`): the logger writes a real file with size-based rotation.  The file is rotated about
+// every sixth record; while `rotfail on` at most maxRotCalls calls are accepted, so that the backlog written by the
+// first flush after `rotfail off` never spans two rotations (rotated files are named by the second).
+const (
+	fileMaxSize = 1200
+	maxRotCalls = 4
+)
+
+// the real kernel subscriber_nat map (`new … kern`) and a closed duplicate of its handle: with the closed handle
+// installed (`fault on`) every Put and every Delete of the manager fails
+var (
+	kernMap *ebpf.Map
+	deadMap *ebpf.Map
+)
+
+func kernelMaps() error {
+	if kernMap != nil {
+		return nil
+	}
+	_ = rlimit.RemoveMemlock()
+	m, err := ebpf.NewMap(&ebpf.MapSpec{Type: ebpf.Hash, KeySize: 4, ValueSize: 64, MaxEntries: 4096})
+	if err != nil {
+		return err
+	}
+	d, err := m.Clone()
+	if err != nil {
+		return err
+	}
+	d.Close()
+	kernMap, deadMap = m, d
+	return nil
+}
+
+func clearKernel() {
+	var k uint32
+	var v nat.SubscriberNAT
+	var keys []uint32
+	it := kernMap.Iterate()
+	for it.Next(&k, &v) {
+		keys = append(keys, k)
+	}
+	for i := range keys {
+		_ = kernMap.Delete(&keys[i])
+	}
+}
+
 type run struct {
 	m         *nat.Manager
 	l         *nat.Logger
 	w         stallWriter
 	buffering bool          // no flush after each call
 	flushDone chan struct{} // a parked flush is in flight
+	parkDone  chan struct{} // a flush is parked at the logger's write lock, which the harness holds
 	bufCalls  int
 	held      bool
 	pending   []*task
 	lastTS    time.Time
+
+	kern  bool // a real kernel subscriber_nat map is attached
+	fault bool // … through its closed handle
+
+	// what the caller keeps: the Allocation it was handed last for each subscriber, the address slices it passed in
+	keepMu  sync.Mutex
+	kept    map[int]*nat.Allocation
+	args    map[int]net.IP
+	pubArgs map[int]net.IP
+
+	// file mode
+	file     bool
+	dir      string
+	moved    bool  // `rotfail on`: the log directory has been renamed away
+	curOff   int64 // bytes of the current nat.log already read
+	rotCalls int
+	fileRecs []string
+	fileBack bool
 }
 
-func (comp) NewRun() hx.Run { return &run{} }
+func (comp) NewRun() hx.Run {
+	return &run{kept: map[int]*nat.Allocation{}, args: map[int]net.IP{}, pubArgs: map[int]net.IP{}}
+}
 
 func (r *run) Close() {
 	if r.flushDone != nil {
@@ -434,23 +712,54 @@ func (r *run) Close() {
 		<-r.flushDone
 		r.flushDone = nil
 	}
+	if r.parkDone != nil {
+		r.l.ReleaseWriterForVerif()
+		<-r.parkDone
+		r.parkDone = nil
+	}
 	if r.held {
 		r.m.ReleasePoolForVerif()
 		for _, t := range r.pending {
 			<-t.done
 		}
 	}
+	if r.file {
+		if r.moved {
+			_ = os.Rename(r.dir+".off", r.dir)
+		}
+		if r.l != nil {
+			r.l.Stop()
+		}
+		_ = os.RemoveAll(r.dir)
+		_ = os.RemoveAll(r.dir + ".off")
+	}
 }
 
 func showAlloc(a *nat.Allocation) string {
-	return fmt.Sprintf("%s %d %d i%d id%d", pubTok(a.PublicIP), a.PortStart, a.PortEnd, a.PoolIndex, a.SubscriberID)
+	return fmt.Sprintf("%s %d %d i%d id%d %s", pubTok(a.PublicIP), a.PortStart, a.PortEnd, a.PoolIndex, a.SubscriberID,
+		privTok(a.PrivateIP))
+}
+
+func kernErr(err error) bool {
+	return strings.Contains(err.Error(), "eBPF map") || strings.Contains(err.Error(), "subscriber NAT entry")
 }
 
 func (r *run) doAlloc(k string) string {
-	a, err := r.m.AllocateNAT(privIP(tagNum(k)))
+	n := tagNum(k)
+	ip := privIP(n)
+	a, err := r.m.AllocateNAT(ip)
+	r.keepMu.Lock()
+	r.args[n] = ip
+	if err == nil {
+		r.kept[n] = a
+	}
+	r.keepMu.Unlock()
 	if err != nil {
 		if strings.Contains(err.Error(), "exhausted") {
 			return "exhausted"
+		}
+		if kernErr(err) {
+			return "kernerr"
 		}
 		return "error " + err.Error()
 	}
@@ -459,6 +768,9 @@ func (r *run) doAlloc(k string) string {
 
 func (r *run) doDealloc(k string) string {
 	if err := r.m.DeallocateNAT(privIP(tagNum(k))); err != nil {
+		if kernErr(err) {
+			return "kernerr"
+		}
 		return "error " + err.Error()
 	}
 	return "ok"
@@ -476,16 +788,8 @@ type rec struct {
 	PublicPort   uint16    `json:"public_port"`
 }
 
-// logSuffix flushes the logger and renders the records written since the last call
-func (r *run) logSuffix() string {
-	if r.l == nil || r.buffering {
-		return ""
-	}
-	r.l.Flush()
-	r.l.FlushPortBlocks()
-	data := r.w.take()
-	var out []string
-	back := false
+// render turns log lines into record tokens; back reports a timestamp that goes backwards
+func (r *run) render(data string) (out []string, back bool) {
 	for _, line := range strings.Split(data, "\n") {
 		if strings.TrimSpace(line) == "" {
 			continue
@@ -513,6 +817,10 @@ func (r *run) logSuffix() string {
 			out = append(out, "?"+e.EventType)
 		}
 	}
+	return out, back
+}
+
+func suffix(out []string, back bool) string {
 	if len(out) == 0 {
 		return ""
 	}
@@ -521,6 +829,67 @@ func (r *run) logSuffix() string {
 		s += ",tsback"
 	}
 	return s
+}
+
+// logSuffix flushes the logger and renders the records written since the last call.  In file mode the records are
+// collected (rotated files are read and removed at once) and shown by `sync` only: when a record reaches the file
+// depends on the length of the JSON lines written before it.
+func (r *run) logSuffix() string {
+	if r.l == nil || r.buffering {
+		return ""
+	}
+	r.l.Flush()
+	r.l.FlushPortBlocks()
+	if r.file {
+		r.consume()
+		return ""
+	}
+	return suffix(r.render(r.w.take()))
+}
+
+// consume reads what the logger has written into its files since the last call
+func (r *run) consume() {
+	d := r.dir
+	if r.moved {
+		d += ".off"
+	}
+	take := func(b []byte) {
+		out, back := r.render(string(b))
+		r.fileRecs = append(r.fileRecs, out...)
+		r.fileBack = r.fileBack || back
+	}
+	ents, _ := os.ReadDir(d)
+	var rot []string
+	for _, e := range ents {
+		if strings.HasPrefix(e.Name(), "nat.log.") {
+			rot = append(rot, e.Name())
+		}
+	}
+	sort.Strings(rot)
+	for i, n := range rot {
+		b, _ := os.ReadFile(filepath.Join(d, n))
+		if i == 0 {
+			if int64(len(b)) < r.curOff {
+				r.fileRecs = append(r.fileRecs, "?rotated-file-shrank")
+				b = nil
+			} else {
+				b = b[r.curOff:]
+			}
+		}
+		take(b)
+		_ = os.Remove(filepath.Join(d, n))
+	}
+	if len(rot) > 0 {
+		r.curOff = 0
+	}
+	b, err := os.ReadFile(filepath.Join(d, "nat.log"))
+	if err == nil && int64(len(b)) > r.curOff {
+		chunk := b[r.curOff:]
+		if j := bytes.LastIndexByte(chunk, '\n'); j >= 0 {
+			take(chunk[:j+1])
+			r.curOff += int64(j + 1)
+		}
+	}
 }
 
 var gidRe = regexp.MustCompile(`^goroutine (\d+) \[`)
@@ -564,8 +933,8 @@ func parkedOnLock(gid string) bool {
 		strings.HasPrefix(st, "sync.RWMutex.RLock") || strings.HasPrefix(st, "semacquire")
 }
 
-// spawn starts f in a goroutine and waits until it has returned or is parked on a lock
-func (r *run) spawn(f func() string) string {
+// start runs f in a goroutine and waits until it has returned (its result) or is parked on a lock ("blocked")
+func (r *run) start(f func() string) (*task, string) {
 	t := &task{done: make(chan string, 1)}
 	gidc := make(chan string, 1)
 	go func() {
@@ -582,12 +951,11 @@ func (r *run) spawn(f func() string) string {
 	for i := 0; ; i++ {
 		select {
 		case res := <-t.done:
-			return res
+			return nil, res
 		default:
 		}
 		if parkedOnLock(gid) {
-			r.pending = append(r.pending, t)
-			return "blocked"
+			return t, "blocked"
 		}
 		if i < 50 {
 			runtime.Gosched()
@@ -595,10 +963,18 @@ func (r *run) spawn(f func() string) string {
 			time.Sleep(20 * time.Microsecond)
 		}
 		if time.Now().After(deadline) {
-			r.pending = append(r.pending, t)
-			return "stuck"
+			return t, "stuck"
 		}
 	}
+}
+
+// spawn starts a caller that is expected to queue at the pool lock
+func (r *run) spawn(f func() string) string {
+	t, res := r.start(f)
+	if t != nil {
+		r.pending = append(r.pending, t)
+	}
+	return res
 }
 
 // stress: g goroutines perform n random AllocateNAT/DeallocateNAT calls each over `subs` subscribers in parallel.
@@ -660,10 +1036,95 @@ func (r *run) stress(f []string) string {
 	return "table=" + tab + r.logSuffix()
 }
 
+// kmapDump renders the kernel subscriber_nat map: k1:p1:<start>:<end>:id<subscriber id>, sorted by subscriber
+func kmapDump() string {
+	type ent struct {
+		n int
+		s string
+	}
+	var es []ent
+	var k uint32
+	var v nat.SubscriberNAT
+	it := kernMap.Iterate()
+	for it.Next(&k, &v) {
+		priv := make(net.IP, 4)
+		binary.BigEndian.PutUint32(priv, k)
+		pub := make(net.IP, 4)
+		binary.BigEndian.PutUint32(pub, v.Block.PublicIP)
+		s := fmt.Sprintf("%s:%s:%d:%d:id%d", privTok(priv), pubTok(pub), v.Block.PortStart, v.Block.PortEnd, v.Block.SubscriberID)
+		if v.Block.NextPort != uint32(v.Block.PortStart) {
+			s += fmt.Sprintf(":next%d", v.Block.NextPort)
+		}
+		es = append(es, ent{tagNum(privTok(priv)), s})
+	}
+	if err := it.Err(); err != nil {
+		return "error " + err.Error()
+	}
+	if len(es) == 0 {
+		return "-"
+	}
+	sort.Slice(es, func(i, j int) bool { return es[i].n < es[j].n })
+	parts := make([]string, len(es))
+	for i, e := range es {
+		parts[i] = e.s
+	}
+	return strings.Join(parts, ",")
+}
+
+func scribble(ip net.IP) {
+	for i := range ip {
+		ip[i] ^= 0x5a
+	}
+}
+
+// poke: the caller writes over memory that belongs to it -- the Allocation it was handed, the address slices it
+// passed in, the entries GetPoolStats returned.  None of this is a call into the manager.
+func (r *run) poke(f []string) string {
+	r.keepMu.Lock()
+	defer r.keepMu.Unlock()
+	switch {
+	case f[1] == "ret" && len(f) == 4:
+		a := r.kept[tagNum(f[2])]
+		if a == nil {
+			a = &nat.Allocation{} // nothing was handed out for this subscriber: the write goes nowhere
+		}
+		switch f[3] {
+		case "idx":
+			a.PoolIndex++
+		case "idx0":
+			a.PoolIndex = 0
+		case "pub":
+			scribble(a.PublicIP)
+		case "priv":
+			scribble(a.PrivateIP)
+		case "ports":
+			a.PortStart += 7
+			a.PortEnd += 7
+		case "sub":
+			a.SubscriberID += 100
+		default:
+			return "badop"
+		}
+		return "ok"
+	case f[1] == "arg" && len(f) == 3:
+		scribble(r.args[tagNum(f[2])])
+		return "ok"
+	case f[1] == "addip" && len(f) == 3:
+		scribble(r.pubArgs[tagNum(f[2])])
+		return "ok"
+	case f[1] == "pool" && len(f) == 2:
+		for _, e := range r.m.GetPoolStats() {
+			scribble(e.PublicIP)
+		}
+		return "ok"
+	}
+	return "badop"
+}
+
 func (r *run) Do(op string) string {
 	f := hx.Fields(op)
 	if f[0] == "new" {
-		if len(f) != 5 {
+		if len(f) != 5 && !(len(f) == 6 && f[5] == "kern") {
 			return "badop"
 		}
 		pps, _ := strconv.Atoi(f[1])
@@ -679,16 +1140,38 @@ func (r *run) Do(op string) string {
 			return "error " + err.Error()
 		}
 		r.m = m
-		if f[4] == "bulk" || f[4] == "trad" {
-			l, err := nat.NewLogger(nat.LoggerConfig{Enabled: true, Format: nat.LogFormatJSON,
-				BulkLogging: f[4] == "bulk", BufferSize: 500}, zap.NewNop())
+		if len(f) == 6 {
+			if err := kernelMaps(); err != nil {
+				return "error kernel-map " + err.Error()
+			}
+			clearKernel()
+			m.SetSubscriberNATMapForVerif(kernMap)
+			r.kern = true
+		}
+		switch f[4] {
+		case "bulk", "trad", "bulkf", "tradf":
+			cfg := nat.LoggerConfig{Enabled: true, Format: nat.LogFormatJSON,
+				BulkLogging: strings.HasPrefix(f[4], "bulk"), BufferSize: 500}
+			if strings.HasSuffix(f[4], "f") {
+				dir, err := os.MkdirTemp("", "bngverif-natlog-")
+				if err != nil {
+					return "error " + err.Error()
+				}
+				r.file, r.dir = true, dir
+				cfg.FilePath = filepath.Join(dir, "nat.log")
+				cfg.MaxFileSize = fileMaxSize
+			}
+			l, err := nat.NewLogger(cfg, zap.NewNop())
 			if err != nil {
 				return "error " + err.Error()
 			}
-			l.SetWriterForVerif(&r.w)
+			if !r.file {
+				l.SetWriterForVerif(&r.w)
+			}
 			r.l = l
 			m.SetLogger(l)
-		} else if f[4] != "off" {
+		case "off":
+		default:
 			return "badop"
 		}
 		return "ok"
@@ -697,9 +1180,10 @@ func (r *run) Do(op string) string {
 		return "badop"
 	}
 	needsPool := map[string]bool{"addip": true, "alloc": true, "dealloc": true, "pools": true, "stress": true}
-	if r.held && needsPool[f[0]] {
+	if r.held && (needsPool[f[0]] || (f[0] == "poke" && len(f) == 2)) {
 		return "badop" // would deadlock on the lock the harness holds
 	}
+	isCall := f[0] == "alloc" || f[0] == "dealloc" || (f[0] == "spawn" && r.held)
 	if r.buffering {
 		switch f[0] {
 		case "stress":
@@ -718,14 +1202,31 @@ func (r *run) Do(op string) string {
 			}
 		}
 	}
+	if r.file {
+		switch f[0] {
+		case "stress", "buffer", "flushhold", "flushpark", "flushrelease", "wfail", "flush":
+			return "badop"
+		}
+		if r.moved && isCall {
+			if r.rotCalls >= maxRotCalls {
+				return "badop"
+			}
+			r.rotCalls++
+		}
+	}
 	switch {
 	case f[0] == "addip" && len(f) == 2:
-		if err := r.m.AddPublicIP(pubIP(tagNum(f[1]))); err != nil {
+		ip := pubIP(tagNum(f[1]))
+		err := r.m.AddPublicIP(ip)
+		if err != nil {
 			if strings.Contains(err.Error(), "already") {
 				return "dup"
 			}
 			return "error " + err.Error()
 		}
+		r.keepMu.Lock()
+		r.pubArgs[tagNum(f[1])] = ip
+		r.keepMu.Unlock()
 		return "ok"
 	case f[0] == "alloc" && len(f) == 2:
 		return r.doAlloc(f[1]) + r.logSuffix()
@@ -736,6 +1237,9 @@ func (r *run) Do(op string) string {
 		if a == nil {
 			return "none"
 		}
+		r.keepMu.Lock()
+		r.kept[tagNum(f[1])] = a
+		r.keepMu.Unlock()
 		return showAlloc(a)
 	case f[0] == "count":
 		return strconv.Itoa(r.m.GetAllocationCount())
@@ -748,16 +1252,90 @@ func (r *run) Do(op string) string {
 			return "-"
 		}
 		return strings.Join(parts, ",")
+	case f[0] == "poke" && len(f) >= 2:
+		return r.poke(f)
+	case f[0] == "fault" && len(f) == 2 && (f[1] == "on" || f[1] == "off"):
+		if !r.kern {
+			return "badop"
+		}
+		r.fault = f[1] == "on"
+		if r.fault {
+			r.m.SetSubscriberNATMapForVerif(deadMap)
+		} else {
+			r.m.SetSubscriberNATMapForVerif(kernMap)
+		}
+		return "ok"
+	case f[0] == "kmap" && len(f) == 1:
+		if !r.kern {
+			return "badop"
+		}
+		return kmapDump()
+	case f[0] == "wfail" && len(f) == 2:
+		if r.buffering {
+			return "badop"
+		}
+		r.w.mu.Lock()
+		defer r.w.mu.Unlock()
+		if f[1] == "off" {
+			r.w.failing = false
+			return "ok"
+		}
+		n, err := strconv.Atoi(f[1])
+		if err != nil || n < 0 || n > 1000 {
+			return "badop"
+		}
+		r.w.failing, r.w.left = true, n
+		return "ok"
+	case f[0] == "flush" && len(f) == 1:
+		if r.buffering || r.held {
+			return "badop"
+		}
+		return "ok" + r.logSuffix()
+	case f[0] == "rotfail" && len(f) == 2 && (f[1] == "on" || f[1] == "off"):
+		if !r.file || r.held || r.moved == (f[1] == "on") {
+			return "badop"
+		}
+		var err error
+		if f[1] == "on" {
+			err = os.Rename(r.dir, r.dir+".off")
+		} else {
+			err = os.Rename(r.dir+".off", r.dir)
+		}
+		if err != nil {
+			return "error " + err.Error()
+		}
+		r.moved = f[1] == "on"
+		r.rotCalls = 0
+		return "ok"
+	case f[0] == "sync" && len(f) == 1:
+		if !r.file || r.held || r.moved {
+			return "badop"
+		}
+		r.logSuffix()
+		s := "ok" + suffix(r.fileRecs, r.fileBack)
+		r.fileRecs, r.fileBack = nil, false
+		return s
 	case f[0] == "buffer" && len(f) == 1:
 		if r.buffering || r.held {
 			return "badop"
 		}
-		r.logSuffix() // nothing is pending: every call so far was followed by a flush
+		r.w.mu.Lock()
+		failing := r.w.failing
+		r.w.mu.Unlock()
+		if failing {
+			return "badop"
+		}
+		if r.l != nil { // nothing may be pending (records a failing writer left in the logger's buffers)
+			st := r.l.GetStats()
+			if st["buffer_used"].(int)+st["port_block_buffer_used"].(int) > 0 {
+				return "badop"
+			}
+		}
 		r.buffering = true
 		r.bufCalls = 0
 		return "ok"
 	case f[0] == "flushhold" && len(f) == 1:
-		if !r.buffering || r.flushDone != nil || r.held {
+		if !r.buffering || r.flushDone != nil || r.parkDone != nil || r.held {
 			return "badop"
 		}
 		if r.l == nil {
@@ -786,6 +1364,33 @@ func (r *run) Do(op string) string {
 		case <-time.After(60 * time.Second):
 			return "stuck"
 		}
+	case f[0] == "flushpark" && len(f) == 1:
+		// the harness takes the logger's write lock; a flush (the background flushLoop's) starts and queues at it
+		if !r.buffering || r.flushDone != nil || r.parkDone != nil || r.held {
+			return "badop"
+		}
+		if r.l == nil {
+			return "parked"
+		}
+		r.l.HoldWriterForVerif()
+		done := make(chan struct{})
+		t, res := r.start(func() string {
+			r.l.Flush()
+			r.l.FlushPortBlocks()
+			close(done)
+			return "returned"
+		})
+		if t == nil {
+			// it did not need the lock: nothing was buffered and the code looks at the buffer first
+			r.l.ReleaseWriterForVerif()
+			return res
+		}
+		if res != "blocked" {
+			r.l.ReleaseWriterForVerif()
+			return res
+		}
+		r.parkDone = done
+		return "parked"
 	case f[0] == "flushrelease" && len(f) == 1:
 		if !r.buffering || r.held {
 			return "badop"
@@ -798,6 +1403,19 @@ func (r *run) Do(op string) string {
 				return "hang"
 			}
 			r.flushDone = nil
+		}
+		if r.parkDone != nil {
+			// the lock is free again and an inline flush (a caller whose record filled the buffer) gets there
+			// before the parked one has been scheduled
+			r.l.ReleaseWriterForVerif()
+			r.l.Flush()
+			r.l.FlushPortBlocks()
+			select {
+			case <-r.parkDone:
+			case <-time.After(60 * time.Second):
+				return "hang"
+			}
+			r.parkDone = nil
 		}
 		r.buffering = false
 		r.bufCalls = 0
